@@ -221,10 +221,13 @@ def projection_case(ctx, rng, given=None):
         ferm = rng.random() < 0.4
         nd = rng.randint(1, 3)
         labels = []
-        for _ in range(nd):
-            n = rng.randint(1, 5)
+        long_axis = rng.randrange(nd) if rng.random() < 0.04 else None
+        for k_ in range(nd):
+            n = rng.randint(1, 5) if k_ != long_axis else rng.randint(97, 260)
             pool = rng.sample(gen.POOL[sym], rng.randint(1, min(3, len(gen.POOL[sym]))))
             labels.append([rng.choice(pool) for _ in range(n)])
+        if long_axis is not None:
+            ctx.count("feature", "axis-longer-than-96")
         duals = [rng.random() < 0.5 for _ in range(nd)]
     shape = [len(l) for l in labels]
     spec = (sym, ferm, labels, duals)
@@ -275,10 +278,14 @@ def projection_case(ctx, rng, given=None):
     w = {"symmetry": sym, "class": cls.__name__, "labels": [list(map(repr, l)) for l in labels], "duals": duals, "charge": repr(charge), "dense": repr(D.tolist()), "invalid_sectors": inv}
     ctx.count("kind", kind)
 
+    dform = rng.choice(["bool-list", "bool-list", "int-list", "tuple", "ndarray"])
+    duals_arg = {"bool-list": list(duals), "int-list": [int(d_) for d_ in duals], "tuple": tuple(duals), "ndarray": np.array(duals, dtype=bool)}[dform]
+    ctx.count("duals-form", dform)
+
     def build():
         with warnings.catch_warnings():
             warnings.simplefilter("ignore", UserWarning)
-            return cls.from_dense(D, maps, duals, charge=charge, invalid_sectors=inv, **sargs, **okw)
+            return cls.from_dense(D, maps, duals_arg, charge=charge, invalid_sectors=inv, **sargs, **okw)
 
     o = ctx.call(build)
     ctx.evaluated()
